@@ -99,7 +99,7 @@ func checkC17(c *Ctx, r *Report) {
 	r.Explanation = "W-BITS: for the typed SEI messages with a serialiser (time code 136, mastering display 137, content light level 144) the decoder is executed on a symbolic payload under every configuration of its flags/counts, " +
 		"the message's Payload() is executed on the decoded value and compared bit by bit with what was read (plus rbsp trailing bits), and 8*Size() equals the number of bits Payload() writes; " +
 		"(O-RESTORE) the look-ahead EBSPReader.MoreRbspData restores every reader field that Read modifies (bit buffer, position AND the emulation-prevention zero counter); " +
-		"(O-SEIW) WriteSEIMessages writes, per message, Type(), Size() and then exactly the bytes of Payload(); pass-through messages return their stored payload. " +
+		"(O-FFRUN) the writer of the 0xFF-run coded type/size keeps emitting 0xFF while the remainder is >= 255; (O-SEIW) WriteSEIMessages writes, per message, Type(), Size() and then exactly the bytes of Payload(); pass-through messages return their stored payload. " +
 		"Does not decide emulation prevention itself or trailing-bit detection arithmetic (C13 territory), nor the AVC pic-timing message whose layout depends on external HRD parameters."
 	wireAssumptions(r)
 	for _, sp := range seiCodecs {
@@ -107,6 +107,7 @@ func checkC17(c *Ctx, r *Report) {
 	}
 	r.Floor("W-BITS", 3)
 	ruleRestore(c, r, "bits", "EBSPReader", "Read", "MoreRbspData")
+	ruleFFRun(c, r)
 	// O-SEIW
 	if f := c.ssaFunc(r, "O-SEIW", "sei", "WriteSEIMessages"); f != nil {
 		ty := callsIn(f, "iface.Type", false)
